@@ -204,7 +204,7 @@ sc_notify_get_eager_threshold (sc_notify_t * notify)
 }
 
 void
-sc_notify_set_eagher_threshold (sc_notify_t * notify, size_t thresh)
+sc_notify_set_eager_threshold (sc_notify_t * notify, size_t thresh)
 {
   notify->eager_threshold = thresh;
 }
